@@ -279,19 +279,20 @@ func ttlCase(w *W, idx int) {
 	// the stored deadline must be exactly what the API reported
 	for _, r := range rows {
 		r := r
-		c.QueryAt(r.off, func(row column.Row) error {
-			v, ok := row.Int64("expire")
-			if r.deadline == 0 {
-				if ok && v != 0 {
-					fail(fmt.Sprintf("row %d (%s) has no TTL but expire reads %d", r.off, r.group, v))
-				}
-				return nil
+		var v int64
+		var ok bool
+		c.QueryAt(r.off, func(row column.Row) error { v, ok = row.Int64("expire"); return nil })
+		// (no library call inside the callback: it runs under the block's read latch, and a second read latch
+		// behind a waiting cleanup commit never gets in - seen once in 5 400 cases of a thorough dry run)
+		if r.deadline == 0 {
+			if ok && v != 0 {
+				fail(fmt.Sprintf("row %d (%s) has no TTL but expire reads %d", r.off, r.group, v))
 			}
-			if present(c, r.off) && (!ok || v != r.deadline) {
-				fail(fmt.Sprintf("row %d (%s): expire reads (%d,%v), the API reported deadline %d", r.off, r.group, v, ok, r.deadline))
-			}
-			return nil
-		})
+			continue
+		}
+		if (!ok || v != r.deadline) && present(c, r.off) { // still there after the read, so it was there during the read
+			fail(fmt.Sprintf("row %d (%s): expire reads (%d,%v), the API reported deadline %d", r.off, r.group, v, ok, r.deadline))
+		}
 	}
 
 	// writers: unrelated updates and extensions on the same rows, and new inserts, beside the cleanup
